@@ -330,7 +330,7 @@ func (C16) Run(c core.Case, ctx *core.Ctx) []core.Violation {
 				if view.HasNilOpt {
 					out = append(out, core.Violation{Class: res.PanicClass, Site: res.PanicSite, Detail: "a nil option made the call panic: " + trunc(res.PanicDetail)})
 				} else {
-					ctx.St.Inc("cross_c06_panic_or_divergence")
+					out = append(out, core.Violation{Class: res.PanicClass, Site: res.PanicSite, Detail: fmt.Sprintf("op %d: every parameter has an exactly keyed option but the call did not return: %s", oi, trunc(res.PanicDetail))})
 				}
 				continue
 			}
